@@ -465,7 +465,7 @@ class Netlist:
                         cycle.path.append((cell, net.bit, src_loc))
                         break
 
-            if cycle is not None and cycle.start == net:
+            if cycle is not None and (cycle.start == net or cycle.start in extra_nets):
                 msg = ["Combinational cycle detected, path:\n"]
                 for obj, bit, src_loc in reversed(cycle.path):
                     if isinstance(obj, _ast.Signal):
